@@ -6,5 +6,6 @@ pub mod item;
 pub mod enumerate;
 pub mod float;
 pub mod shape;
+pub mod render;
 
 pub use item::*;
